@@ -8,6 +8,7 @@ import (
 	"go/types"
 	"os"
 	"sort"
+	"strconv"
 	"strings"
 
 	"golang.org/x/tools/go/packages"
@@ -1149,10 +1150,15 @@ func substituteExprBody(callFset, declFset *token.FileSet, declInfo *types.Info,
 // canonExprs rewrites, in the non-test files of the module's packages, spellings of a condition that
 // are equal for every operand value into the one spelling the reference tree uses:
 //
-//	b == false, false == b, b != true  ->  !(b)          b == true, b != false  ->  (b)
-//	!(x OP y) for a comparison OP over non-floating operands  ->  (x OP' y)     !(!(x)) -> (x)
-//	len(s) == 0, len(s) < 1, len(s) <= 0 (s a string)  ->  (s == "")
-//	len(s) != 0, len(s) > 0, len(s) >= 1               ->  (s != "")   (also with the constant on the left)
+//		b == false, false == b, b != true  ->  !(b)          b == true, b != false  ->  (b)
+//		!(x OP y) for a comparison OP over non-floating operands  ->  (x OP' y)     !(!(x)) -> (x)
+//		len(s) == 0, len(s) < 1, len(s) <= 0 (s a string)  ->  (s == "")
+//		len(s) != 0, len(s) > 0, len(s) >= 1               ->  (s != "")   (also with the constant on the left)
+//
+//	  x == nil || len(x) == 0 -> (len(x) == 0)      s[a:][b:] -> s[(a)+(b):]
+//	  len(s) >= len(p) && s[:len(p)] == p  ->  strings.HasPrefix(s, p)   (in files that import strings)
+//	  b = strings.Builder{} -> b.Reset()        b.WriteString(x + "c") -> b.WriteString(x); b.WriteByte('c')
+//	  defer func() { x.m() }() -> defer x.m()   (x a never-assigned parameter or receiver, m a method, no arguments)
 //
 // Operands are copied verbatim and keep their evaluation order. It returns the number of rewrites
 // applied (outermost first; nested ones are handled by the next round, which reloads the overlay).
@@ -1242,10 +1248,246 @@ func canonExprs(pkgs []*packages.Package, dir string, cur map[string][]byte, rep
 			}
 			negOp := map[token.Token]token.Token{token.EQL: token.NEQ, token.NEQ: token.EQL, token.LSS: token.GEQ, token.GEQ: token.LSS, token.GTR: token.LEQ, token.LEQ: token.GTR}
 			flip := map[token.Token]token.Token{token.EQL: token.EQL, token.NEQ: token.NEQ, token.LSS: token.GTR, token.GTR: token.LSS, token.LEQ: token.GEQ, token.GEQ: token.LEQ}
+			var isPath func(e ast.Expr) bool
+			isPath = func(e ast.Expr) bool {
+				switch x := ast.Unparen(e).(type) {
+				case *ast.Ident:
+					return true
+				case *ast.SelectorExpr:
+					return isPath(x.X)
+				}
+				return false
+			}
+			samePath := func(a, b ast.Expr) bool { return isPath(a) && isPath(b) && src(ast.Unparen(a)) == src(ast.Unparen(b)) }
+			lenArg := func(e ast.Expr) (ast.Expr, bool) {
+				call, ok := ast.Unparen(e).(*ast.CallExpr)
+				if !ok || len(call.Args) != 1 {
+					return nil, false
+				}
+				id, ok := call.Fun.(*ast.Ident)
+				if !ok || id.Name != "len" {
+					return nil, false
+				}
+				if _, isBuiltin := p.TypesInfo.Uses[id].(*types.Builtin); !isBuiltin {
+					return nil, false
+				}
+				return call.Args[0], true
+			}
+			isNilIdent := func(e ast.Expr) bool {
+				id, ok := ast.Unparen(e).(*ast.Ident)
+				if !ok {
+					return false
+				}
+				_, isNil := p.TypesInfo.Uses[id].(*types.Nil)
+				return isNil
+			}
+			isBuilder := func(e ast.Expr) bool {
+				t := p.TypesInfo.TypeOf(e)
+				if t == nil {
+					return false
+				}
+				n, ok := t.(*types.Named)
+				return ok && n.Obj().Pkg() != nil && n.Obj().Pkg().Path() == "strings" && n.Obj().Name() == "Builder"
+			}
+			importsStrings := false
+			for _, im := range f.Imports {
+				if im.Path.Value == `"strings"` && im.Name == nil {
+					importsStrings = true
+				}
+			}
+			// identifiers that are assigned, or whose address is taken, somewhere in a function (for the defer rewrite)
+			reassigned := func(fd *ast.FuncDecl) map[types.Object]bool {
+				m := map[types.Object]bool{}
+				ast.Inspect(fd.Body, func(n ast.Node) bool {
+					switch x := n.(type) {
+					case *ast.AssignStmt:
+						if x.Tok != token.DEFINE {
+							for _, l := range x.Lhs {
+								if id, ok := ast.Unparen(l).(*ast.Ident); ok {
+									m[p.TypesInfo.ObjectOf(id)] = true
+								}
+							}
+						}
+					case *ast.IncDecStmt:
+						if id, ok := ast.Unparen(x.X).(*ast.Ident); ok {
+							m[p.TypesInfo.ObjectOf(id)] = true
+						}
+					case *ast.UnaryExpr:
+						if x.Op == token.AND {
+							if id, ok := ast.Unparen(x.X).(*ast.Ident); ok {
+								m[p.TypesInfo.ObjectOf(id)] = true
+							}
+						}
+					case *ast.RangeStmt:
+						if x.Tok != token.DEFINE {
+							for _, l := range []ast.Expr{x.Key, x.Value} {
+								if id, ok := l.(*ast.Ident); ok {
+									m[p.TypesInfo.ObjectOf(id)] = true
+								}
+							}
+						}
+					}
+					return true
+				})
+				return m
+			}
+			var curFunc *ast.FuncDecl
+			var curReassigned map[types.Object]bool
 			var visit func(n ast.Node) bool
 			visit = func(n ast.Node) bool {
 				switch e := n.(type) {
+				case *ast.DeferStmt:
+					// `defer func() { x.m() }()` -> `defer x.m()`: the same call at the same moment when x is a
+					// parameter or receiver that is never assigned and the call has no arguments to evaluate early
+					lit, ok := e.Call.Fun.(*ast.FuncLit)
+					if !ok || len(e.Call.Args) != 0 || lit.Type.Params.NumFields() != 0 || (lit.Type.Results != nil && lit.Type.Results.NumFields() != 0) || len(lit.Body.List) != 1 || curFunc == nil {
+						return true
+					}
+					es, ok := lit.Body.List[0].(*ast.ExprStmt)
+					if !ok {
+						return true
+					}
+					call, ok := es.X.(*ast.CallExpr)
+					if !ok || len(call.Args) != 0 || !isPath(call.Fun) {
+						return true
+					}
+					sel, ok := call.Fun.(*ast.SelectorExpr)
+					if !ok {
+						return true
+					}
+					if _, isMethod := p.TypesInfo.Uses[sel.Sel].(*types.Func); !isMethod {
+						return true // a func-typed field is read at defer time by the direct form
+					}
+					// every field on the path must be a plain struct field reached from a never-assigned parameter
+					root := ast.Unparen(sel.X)
+					for {
+						if sx, ok := root.(*ast.SelectorExpr); ok {
+							root = ast.Unparen(sx.X)
+							continue
+						}
+						break
+					}
+					rid, ok := root.(*ast.Ident)
+					if !ok {
+						return true
+					}
+					obj, _ := p.TypesInfo.ObjectOf(rid).(*types.Var)
+					if obj == nil || curReassigned[obj] {
+						return true
+					}
+					isParam := false
+					for _, fl := range []*ast.FieldList{curFunc.Recv, curFunc.Type.Params} {
+						if fl == nil {
+							continue
+						}
+						for _, fld := range fl.List {
+							for _, nm := range fld.Names {
+								if p.TypesInfo.ObjectOf(nm) == types.Object(obj) {
+									isParam = true
+								}
+							}
+						}
+					}
+					// the receiver expression must be the parameter itself or the address of one of its fields taken
+					// implicitly (x.mu.Unlock()): a pointer-typed field in between could be reassigned meanwhile
+					if !isParam {
+						return true
+					}
+					if inner, ok := ast.Unparen(sel.X).(*ast.SelectorExpr); ok {
+						if _, isPtr := p.TypesInfo.TypeOf(inner).Underlying().(*types.Pointer); isPtr {
+							return true
+						}
+						if _, deeper := ast.Unparen(inner.X).(*ast.SelectorExpr); deeper {
+							return true
+						}
+					}
+					edits = append(edits, edit{off(e.Pos()), off(e.End()), "defer " + src(call)})
+					return false
+				case *ast.AssignStmt:
+					// `b = strings.Builder{}` -> `b.Reset()`
+					if e.Tok == token.ASSIGN && len(e.Lhs) == 1 && len(e.Rhs) == 1 && isPath(e.Lhs[0]) && isBuilder(e.Lhs[0]) {
+						if cl, ok := ast.Unparen(e.Rhs[0]).(*ast.CompositeLit); ok && len(cl.Elts) == 0 && isBuilder(cl) {
+							edits = append(edits, edit{off(e.Pos()), off(e.End()), src(e.Lhs[0]) + ".Reset()"})
+							return false
+						}
+					}
+				case *ast.ExprStmt:
+					// `b.WriteString(x + "c")` -> `b.WriteString(x); b.WriteByte('c')` (a one-byte literal)
+					if call, ok := e.X.(*ast.CallExpr); ok && len(call.Args) == 1 {
+						if sel, ok := call.Fun.(*ast.SelectorExpr); ok && sel.Sel.Name == "WriteString" && isPath(sel.X) && isBuilder(sel.X) {
+							if be, ok := ast.Unparen(call.Args[0]).(*ast.BinaryExpr); ok && be.Op == token.ADD {
+								if tv, has := p.TypesInfo.Types[be.Y]; has && tv.Value != nil && tv.Value.Kind() == constant.String {
+									if lit := constant.StringVal(tv.Value); len(lit) == 1 && lit[0] < 0x80 {
+										if _, lconst := p.TypesInfo.Types[be.X]; lconst && p.TypesInfo.Types[be.X].Value == nil {
+											edits = append(edits, edit{off(e.Pos()), off(e.End()), src(sel.X) + ".WriteString(" + src(be.X) + "); " + src(sel.X) + ".WriteByte(" + strconv.QuoteRuneToASCII(rune(lit[0])) + ")"})
+											return false
+										}
+									}
+								}
+							}
+						}
+					}
+				case *ast.SliceExpr:
+					// `s[a:][b:]` -> `s[(a)+(b):]`
+					if e.Low != nil && e.High == nil && e.Max == nil && !e.Slice3 {
+						if in, ok := ast.Unparen(e.X).(*ast.SliceExpr); ok && in.Low != nil && in.High == nil && in.Max == nil && !in.Slice3 && isPath(in.X) {
+							edits = append(edits, edit{off(e.Pos()), off(e.End()), src(in.X) + "[(" + src(in.Low) + ")+(" + src(e.Low) + "):]"})
+							return false
+						}
+					}
 				case *ast.BinaryExpr:
+					if e.Op == token.LOR {
+						// `x == nil || len(x) == 0` -> `len(x) == 0` (either order)
+						for _, pr := range [][2]ast.Expr{{e.X, e.Y}, {e.Y, e.X}} {
+							nb, ok1 := ast.Unparen(pr[0]).(*ast.BinaryExpr)
+							lb, ok2 := ast.Unparen(pr[1]).(*ast.BinaryExpr)
+							if !ok1 || !ok2 || nb.Op != token.EQL || lb.Op != token.EQL {
+								continue
+							}
+							var subj ast.Expr
+							switch {
+							case isNilIdent(nb.Y):
+								subj = nb.X
+							case isNilIdent(nb.X):
+								subj = nb.Y
+							default:
+								continue
+							}
+							la, isLen := lenArg(lb.X)
+							k, isK := intConst(lb.Y)
+							if isLen && isK && k == 0 && samePath(subj, la) {
+								edits = append(edits, edit{off(e.Pos()), off(e.End()), "(" + src(lb) + ")"})
+								return false
+							}
+						}
+					}
+					if e.Op == token.LAND && importsStrings {
+						// `len(s) >= len(p) && s[:len(p)] == p` -> `strings.HasPrefix(s, p)`
+						gb, ok1 := ast.Unparen(e.X).(*ast.BinaryExpr)
+						eb, ok2 := ast.Unparen(e.Y).(*ast.BinaryExpr)
+						lead := ""
+						if ok1 && gb.Op == token.LAND {
+							// `p && len(s) >= len(q) && s[:len(q)] == q` parses as `(p && len…) && s[…] == q`
+							if inner, ok := ast.Unparen(gb.Y).(*ast.BinaryExpr); ok {
+								if _, paren := e.X.(*ast.ParenExpr); !paren {
+									lead = src(gb.X) + " && "
+									gb = inner
+								}
+							}
+						}
+						if ok1 && ok2 && gb.Op == token.GEQ && eb.Op == token.EQL {
+							ls, okS := lenArg(gb.X)
+							lp, okP := lenArg(gb.Y)
+							if sl, ok := ast.Unparen(eb.X).(*ast.SliceExpr); ok && okS && okP && sl.Low == nil && sl.High != nil && !sl.Slice3 {
+								if hp, okH := lenArg(sl.High); okH && samePath(sl.X, ls) && samePath(hp, lp) && samePath(eb.Y, lp) {
+									if b, ok := p.TypesInfo.TypeOf(ls).Underlying().(*types.Basic); ok && b.Info()&types.IsString != 0 {
+										edits = append(edits, edit{off(e.Pos()), off(e.End()), lead + "strings.HasPrefix(" + src(ls) + ", " + src(lp) + ")"})
+										return false
+									}
+								}
+							}
+						}
+					}
 					if e.Op == token.EQL || e.Op == token.NEQ {
 						x, y := e.X, e.Y
 						cv, isC := boolConst(y)
@@ -1310,6 +1552,7 @@ func canonExprs(pkgs []*packages.Package, dir string, cur map[string][]byte, rep
 			}
 			for _, d := range f.Decls {
 				if fd, ok := d.(*ast.FuncDecl); ok && fd.Body != nil {
+					curFunc, curReassigned = fd, reassigned(fd)
 					ast.Inspect(fd.Body, visit)
 				}
 			}
